@@ -15,12 +15,14 @@ theorem C01_cell_step (op : CellOp) (c c' : Cell) (hd : op.inDomain c)
     ledgerOK op.ledger c c' = true :=
   (cellOp_facts op c c' hd (good_of_bool hn ht) h).ledger
 
-/-- A host move only relocates hosts between the two cells. -/
+/-- A host move only relocates hosts between the two cells. Holds for every mortality-cohort draw
+    `dM` (the C++ always produces a `ValidDraw src.mort d.i dM`) and whatever the length of the
+    target's mortality-cohort list (in the C++ all cells share the length of the tracker vector). -/
 theorem C01_move (src dst : Cell) (count : Int) (d : ClassDraw) (dE dM : List Int)
     (hs : src.nonNeg = true) (hts : src.totalsOK = true)
     (hd : validClassDrawB src count d = true)
-    (hE : d.e > 0 → ValidDraw src.e d.e dE) (hM : d.i > 0 → ValidDraw src.mort d.i dM)
-    (hlenE : dst.e.length = src.e.length) (hlenM : dst.mort.length = src.mort.length) :
+    (hE : d.e > 0 → ValidDraw src.e d.e dE)
+    (hlenE : dst.e.length = src.e.length) :
     let r := moveHosts src dst count d dE dM
     moveLedgerOK src dst r.1 r.2.1 = true :=
   move_ledger (good_of_bool hs hts) hd hE hlenE
